@@ -674,7 +674,8 @@ class Crate:
             self.inlined_helpers |= inline_unknown_helpers(self.j, known_names or set(), helper_keys)
         self.all_bodies = [Body(b, self) for b in self.j['bodies']]
         # helpers that were inlined into their callers are analysed there, not on their own
-        self.bodies = [b for b in self.all_bodies if b.key not in self.inlined_helpers]
+        # ... except `pub` ones: a new public function is an operation of its own even if another new function calls it
+        self.bodies = [b for b in self.all_bodies if b.key not in self.inlined_helpers or (b.j.get('vis_pub') and b.kind != 'Closure')]
         self.by_key = {b.key: b for b in self.all_bodies}
         self.by_pretty = defaultdict(list)
         for b in self.bodies:
